@@ -3,7 +3,11 @@ package props
 import (
 	"errors"
 	"fmt"
+	"os"
+	"os/exec"
 	"reflect"
+	"runtime/debug"
+	"strings"
 	"testing"
 	"time"
 
@@ -36,7 +40,80 @@ func (g *realGetter) Get(string) (map[string][]string, []byte, error) {
 	return nil, nil, errors.New("scripted failure")
 }
 
+// TestC20StackChild runs in a process of its own (started by TestC20Real): MaxRetryDelay 0 and a wrapped getter that
+// fails at once, for ever - the getter retries as fast as it can until the timeout and then returns an error. The
+// process runs with a 32 MiB goroutine stack limit (runtime/debug.SetMaxStack; the default is 1 GiB on 64-bit and
+// 250 MiB on 32-bit machines): however many attempts are made, the call needs no more stack than one attempt.
+func TestC20StackChild(t *testing.T) {
+	to := os.Getenv("VERIF_C20_STACK_CHILD")
+	if to == "" {
+		t.Skip("runs as a child process of TestC20Real")
+	}
+	timeout, err := time.ParseDuration(to)
+	if err != nil {
+		t.Fatal(err)
+	}
+	debug.SetMaxStack(32 << 20)
+	n := 0
+	g := getterFunc(func(string) (map[string][]string, []byte, error) { n++; return nil, nil, errors.New("refused") })
+	r := &trust.RetryHTTPSGetter{Timeout: timeout, MaxRetryDelay: 0, Getter: g}
+	t0 := time.Now()
+	_, _, gerr := r.Get("https://example.test/stack")
+	fmt.Printf("C20CHILD returned err=%v attempts=%d elapsed=%v\n", gerr != nil, n, time.Since(t0).Round(time.Millisecond))
+}
+
+func c20StackChild(to string) (string, error) {
+	cmd := exec.Command(os.Args[0], "-test.run", "^TestC20StackChild$", "-test.count=1", "-test.timeout=120s")
+	cmd.Env = append(os.Environ(), "VERIF_C20_STACK_CHILD="+to, "VERIF_FUZZ=1", "VERIF_REPLAY_FILE=")
+	out, err := cmd.CombinedOutput()
+	return string(out), err
+}
+
+func init() {
+	replayKinds["real-clock-retry-stack"] = func(c map[string]any) string {
+		to, _ := c["timeout"].(string)
+		txt, _ := c20StackChild(to)
+		if strings.Contains(txt, "stack overflow") || strings.Contains(txt, "stack exceeds") || strings.Contains(txt, "C20CHILD returned err=false") {
+			return "the retrying getter's process died (or returned no error) again: " + strings.Join(strings.Fields(fmt.Sprintf("%.200s", txt)), " ")
+		}
+		return ""
+	}
+}
+
+type getterFunc func(string) (map[string][]string, []byte, error)
+
+func (f getterFunc) Get(u string) (map[string][]string, []byte, error) { return f(u) }
+
 func TestC20Real(t *testing.T) {
+	gen.Direct(t, "many-fast-failures-in-a-process-of-its-own", func(t *testing.T) {
+		for i, to := range []string{"300ms", "3s"} {
+			if !gen.ShardOwns(i) {
+				continue
+			}
+			txt, err := c20StackChild(to)
+			gen.Eval()
+			desc := fmt.Sprintf("real clock, own process with a 32 MiB stack limit: timeout=%s maxRetryDelay=0 and a wrapped getter that fails at once, for ever", to)
+			switch {
+			case strings.Contains(txt, "C20CHILD returned err=true"):
+				line := txt[strings.Index(txt, "C20CHILD"):]
+				gen.NonTrivial("real-stack", to)
+				gen.Class("real-clock-many-fast-failures")
+				gen.Sample("real-clock-stack", desc+": "+strings.SplitN(line, "\n", 2)[0])
+			case strings.Contains(txt, "stack overflow") || strings.Contains(txt, "stack exceeds"):
+				first := txt
+				if j := strings.Index(txt, "goroutine "); j > 0 {
+					first = txt[:j]
+				}
+				gen.Fail(t, gen.Violation{Key: "real-clock-crash-instead-of-error", Oracle: "when the wrapped getter keeps failing the retrying getter returns an error", Detail: desc + ": the process died: " + strings.Join(strings.Fields(first), " "), Replay: map[string]any{"kind": "real-clock-retry-stack", "timeout": to}})
+				return
+			case strings.Contains(txt, "C20CHILD returned err=false"):
+				gen.Fail(t, gen.Violation{Key: "real-clock-success-from-nothing", Oracle: "when the wrapped getter keeps failing the retrying getter returns an error", Detail: desc + ": nil error", Replay: map[string]any{"kind": "real-clock-retry-stack", "timeout": to}})
+				return
+			default:
+				gen.Inconclusive(fmt.Sprintf("%s: the child process ended without a verdict (%v): %.200s", desc, err, txt))
+			}
+		}
+	})
 	const slack = 5 * time.Second
 	type rc struct {
 		timeout, max, dur time.Duration
